@@ -1,2 +1,26 @@
 import SpoxModel.Props.C06
 /-! `#print axioms` for every property theorem of C06; parsed by ./check. -/
+#print axioms C06M.overrides_all_modelled
+#print axioms C06M.arrayFeatureExtractor_sound
+#print axioms C06M.binarizer_sound
+#print axioms C06M.categoryMapper_sound
+#print axioms C06M.imputer_sound
+#print axioms C06M.linearRegressor_sound_partial
+#print axioms C06M.linearRegressor_counterexample
+#print axioms C06M.normalizer_sound_partial
+#print axioms C06M.normalizer_counterexample
+#print axioms C06M.oneHotEncoder_sound
+#print axioms C06M.scaler_sound
+#print axioms C06M.treeEnsembleClassifier_sound_partial
+#print axioms C06M.treeEnsembleClassifier_counterexample
+#print axioms C06M.treeEnsembleClassifier_Y_sound
+#print axioms C06M.treeEnsembleRegressor_sound
+#print axioms C06M.compress_sound
+#print axioms C06M.loop_carried_sound
+#print axioms C06M.loop_body_args_sound
+#print axioms C06M.loop_carried_pinned_counterexample
+#print axioms C06M.loop_scan_sound
+#print axioms C06M.loop_scan_output_sound
+#print axioms C06M.stripDim_sound
+#print axioms C06M.stripUnk_sound
+#print axioms C06M.inline_types_sound
